@@ -14,7 +14,7 @@ ERRNOS = ['ENOENT', 'EACCES', 'ENOSPC', 'EIO', 'EROFS']
 
 
 def S(op, ctr='', n=0):
-    return {'op': op, 'ctr': ctr, 'n': n, 'toolong': ctr.startswith('X'), 'odd': ctr == 'N:empty'}
+    return {'op': op, 'ctr': ctr, 'n': n, 'toolong': ctr.startswith('X'), 'odd': ctr == 'N:empty' or op == 'foreign'}
 
 
 # API scenarios of internal/counter.  setup: fresh = no telemetry directory at all, existing = a count file of
@@ -48,6 +48,12 @@ COUNTER_SCENARIOS = [
     dict(name='time', setup='existing', mode='local',
          steps=[S('open'), S('add', 'c1', 1), S('day2'), S('rotate'), S('add', 'c1', 1), S('read', 'c1'), S('week2'), S('rotate'), S('add', 'c1', 1),
                 S('week1'), S('rotate'), S('add', 'c1', 1), S('read', 'c1'), S('week2'), S('rotate'), S('add', 'o1', 2)]),
+    # another process grows the file: it adds n colliding ~3.9 kB names (K...: all in one bucket), so that the chain of that bucket leads
+    # beyond this process's mapping; the next new counter of that bucket has to re-map before it can walk the chain, then grows the file again.
+    # The foreign step itself is fault-free; what is predicted after it is left open (odd), the universal clauses stay.
+    dict(name='foreigngrowth', setup='existing', mode='local',
+         steps=[S('open'), S('add', 'c1', 1), S('foreign', '', 7), S('add', 'Knew', 2), S('add', 'Ksecond', 1), S('add', 'c1', 1), S('add', 'Knew', 1),
+                S('read', 'c1'), S('add', 'c2', 1)]),
     # files deleted while in use
     dict(name='rmfile', setup='full', mode='local',
          steps=[S('open'), S('add', 'o1', 1), S('rmfile'), S('add', 'o1', 1), S('add', 'Lnew', 1), S('read', 'o1'), S('add', 'c1', 1), S('week2'), S('rotate'), S('add', 'o1', 1)]),
